@@ -239,6 +239,41 @@ def oracle(case, res, extra):
                 res.nontrivial.append((case.seed, "wf", tuple(sorted(kinds))))
                 for kx in kinds:
                     res.stats["wf_feature_" + kx] += 1
+    # (i') every resource TYPE under every sequence KIND: the only child of a repeated routine is given one more resource of a type the
+    # repetition cannot process (`qubits`, `other`), named so that it is listed before or after the others.  The outcome is the model's
+    # (`processRepeatedResources`: `qubits` under a constant sequence is skipped, everything else is bartiq's own compilation error)
+    if wf and case.status == "ok":
+        spec2 = copy.deepcopy(case.spec)
+        wrappers = []
+
+        def find(n):
+            if n["repetition"] and n["children"]:
+                wrappers.append(n)
+            for c in n["children"]:
+                find(c)
+        find(spec2)
+        if wrappers:
+            w = rng.choice(wrappers)
+            ty, nm = rng.choice(["qubits", "qubits", "other"]), rng.choice(["AA_q", "zz_q"])
+            only = w["children"][0]
+            if only["repetition"] is None and not any(r["name"] == nm for r in only["resources"]):
+                only["resources"].append({"name": nm, "type": ty, "value": E.num(rng.randint(1, 4))})
+                c2 = pipeline.Case(case.seed, spec2).compile()
+                kind = w["repetition"]["sequence"]["type"]
+                res.stats[f"rep_type_table_{ty}_under_{kind}_{c2.status.split(':')[0]}"] += 1
+                what = {"qref": c2.qref, "history": f"resource {nm} of type {ty} added to the only child of the repeated routine {w['name']} ({kind} sequence)"}
+                if c2.status.startswith("internal"):
+                    res.violation("failing-input", f"compile_routine raised {c2.status.split(':')[1]} on a well-formed routine whose repeated child has a resource of type {ty} ({kind} sequence)",
+                                  what, repr(c2.err)[:300], "a result or bartiq's own compilation error")
+                    return
+                if c2.sexp is not None and c2.status in ("ok", "compilation"):
+                    mr = model.run_driver(["compile 0 " + c2.sexp])[0]
+                    ms = pipeline.model_status(mr)
+                    res.stats["model_vs_impl_compared"] += 1
+                    if not pipeline.same_status(c2.status, ms):
+                        res.disagreement("compile_routine vs Bartiq.compile (outcome for a resource type under a sequence kind)", what, ms,
+                                         c2.status + ((": " + str(c2.err)[:200]) if c2.err else ""))
+                        return
     # (ii) faults (only on documents that are accepted without the fault)
     if case.status != "ok" or case.seed % 2:
         return
